@@ -54,6 +54,18 @@ ALIAS = {
     "influence": "wasInfluencedBy", "specialization": "specializationOf",
     "alternate": "alternateOf", "mention": "mentionOf", "membership": "hadMember",
 }
+import prov.model as _PM
+REC_CLASS = {
+    "entity": _PM.ProvEntity, "activity": _PM.ProvActivity, "agent": _PM.ProvAgent,
+    "generation": _PM.ProvGeneration, "usage": _PM.ProvUsage,
+    "communication": _PM.ProvCommunication, "start": _PM.ProvStart, "end": _PM.ProvEnd,
+    "invalidation": _PM.ProvInvalidation, "derivation": _PM.ProvDerivation,
+    "attribution": _PM.ProvAttribution, "association": _PM.ProvAssociation,
+    "delegation": _PM.ProvDelegation, "influence": _PM.ProvInfluence,
+    "specialization": _PM.ProvSpecialization, "alternate": _PM.ProvAlternate,
+    "mention": _PM.ProvMention, "membership": _PM.ProvMembership,
+    "element": _PM.ProvElement, "relation": _PM.ProvRelation,
+}
 NO_ID_FACTORY = {"specialization", "alternate", "mention", "membership"}
 XSD_T = {"string": PC.XSD_STRING, "double": PC.XSD_DOUBLE, "long": PC.XSD_LONG,
          "int": PC.XSD_INT, "boolean": PC.XSD_BOOLEAN, "dateTime": PC.XSD_DATETIME,
@@ -77,18 +89,47 @@ class World(object):
         self.voc = Vocab(seed, salt)
         self.salt = salt
         self.h = {}        # handle -> container
-        self.parents = {}  # handle -> parent handle or ""
         self.handed = []   # (scope, printed form, uri segs)
+        self.anon = 0
         if init == "docbun":
             doc = ProvDocument()
             self.h["doc"] = doc
             self.h["bun"] = doc.bundle("prov:bun")
-            self.parents = {"doc": "", "bun": "doc"}
         elif init == "doc":
             self.h["doc"] = ProvDocument()
-            self.parents = {"doc": ""}
+        elif init == "empty":
+            pass
         else:
             raise ValueError("unknown init %r" % (init,))
+
+    # ---- handles -----------------------------------------------------
+    def handle_of(self, obj):
+        for k, c in self.h.items():
+            if c is obj:
+                return k
+        return None
+
+    def adopt(self, obj, name):
+        """Register a container the library created under the handle the spec uses."""
+        if self.handle_of(obj) is None:
+            self.h[name] = obj
+
+    def sweep(self):
+        """Every bundle reachable from a live document gets a handle (total projection)."""
+        for k, c in list(self.h.items()):
+            if c.is_document():
+                for b in c.bundles:
+                    if self.handle_of(b) is None:
+                        self.anon += 1
+                        self.h["anon%d" % self.anon] = b
+
+    @property
+    def parents(self):
+        out = {}
+        for k, c in self.h.items():
+            d = c.document if c.is_bundle() else None
+            out[k] = (self.handle_of(d) or "") if d is not None else ""
+        return out
 
     # ---- argument construction -------------------------------------
     @staticmethod
@@ -156,15 +197,70 @@ class World(object):
 
     # ---- observation ------------------------------------------------
     def observe(self):
-        return {"ns": {k: proj_ns(c) for k, c in self.h.items()},
-                "con": {k: proj_container(c, self.voc) for k, c in self.h.items()}}
+        self.sweep()
+        con = {}
+        for k, c in self.h.items():
+            p = proj_container(c, self.voc)
+            p["kind"] = "doc" if c.is_document() else "bun"
+            ident = c.identifier
+            p["id"] = uri_segs(ident.uri) if ident is not None else []
+            p["bundles"] = [self.handle_of(b) for b in c.bundles] if c.is_document() else []
+            con[k] = p
+        return {"ns": {k: proj_ns(c) for k, c in self.h.items()}, "con": con}
+
+    # ---- C18 observations: lookups, typed listings, copy ----------------
+    def lookups(self):
+        from vocab import local_segs
+        import prov.model as PM
+        look, typed, copy = [], {}, {}
+        par = self.parents
+        for h, c in self.h.items():
+            recs = c.records
+            pos = {id(r): i + 1 for i, r in enumerate(recs)}
+            own = [(ns.prefix, ns.uri) for ns in c.namespaces]
+            vis = list(own) + [("prov", PC.PROV.uri), ("xsd", PC.XSD.uri)]
+            d = c.get_default_namespace()
+            dflt = d.uri if d is not None else None
+            if not own and par.get(h):
+                pc = self.h[par[h]]
+                vis += [(ns.prefix, ns.uri) for ns in pc.namespaces]
+                if dflt is None and pc.get_default_namespace() is not None:
+                    dflt = pc.get_default_namespace().uri
+            uris = []
+            for r in recs:
+                if r.identifier is not None and r.identifier.uri not in uris:
+                    uris.append(r.identifier.uri)
+            uris = uris[:4] + [uri_text(["a", "nope"])]
+            for u in uris:
+                spell = [({"rep": "uri", "u": uri_segs(u)}, u)]
+                for (p, nsu) in vis:
+                    if p and u.startswith(nsu) and len(u) > len(nsu):
+                        l = u[len(nsu):]
+                        spell.append(({"rep": "pl", "p": p, "l": local_segs(l)}, "%s:%s" % (p, l)))
+                if dflt and u.startswith(dflt) and len(u) > len(dflt) and ":" not in u[len(dflt):]:
+                    l = u[len(dflt):]
+                    spell.append(({"rep": "bare", "l": local_segs(l)}, l))
+                for (n, text) in spell:
+                    got = c.get_record(text)
+                    look.append({"h": h, "n": n, "idx": [pos.get(id(g), 0) for g in (got or [])]})
+            t = {}
+            for k, cls in REC_CLASS.items():
+                t[k] = [pos.get(id(r), 0) for r in c.get_records(cls)]
+            typed[h] = t
+            got = c.records
+            n0 = len(got)
+            got.append(None)
+            del got[0:1]
+            again = c.records
+            copy[h] = (len(again) == n0 and all(x is y for x, y in zip(again, recs)))
+        return look, typed, copy
 
     def reres(self):
         out = []
         for (s, form, uri) in self.handed:
             text = self.str_form(form)
             now = self.h[s].valid_qualified_name(text)
-            par = self.parents[s]
+            par = self.parents.get(s, "")
             up = self.h[par].valid_qualified_name(text) if par else None
             out.append({"s": s, "str": form, "uri": uri,
                         "now": proj_qn(now), "up": proj_qn(up)})
@@ -227,7 +323,86 @@ class World(object):
             c = self.h[a["h"]]
             r = self.rec(a["r"])
             return const(lambda: c.add_record(r))
+        if op == "NewDoc":
+            def run():
+                self.h[a["out"]] = ProvDocument()
+                return none
+            return run
+        if op == "NewBundle":
+            d = a["id"]
+            ident = QualifiedName(Namespace(d["p"], uri_text(d["ns"])), local_text(d["l"]))
+
+            def run():
+                self.h[a["out"]] = ProvBundle(identifier=ident)
+                return none
+            return run
         c = self.h[a["h"]]
+        if op == "Bundle":
+            ident = self.name(a["id"])
+
+            def run():
+                self.h[a["out"]] = c.bundle(ident)
+                return none
+            return run
+        if op == "Update":
+            o = self.h[a["other"]]
+            obs = [(self.handle_of(b), b.identifier) for b in o.bundles]
+
+            def run():
+                try:
+                    c.update(o)
+                finally:
+                    if c.is_document():
+                        for (bh, bid) in obs:
+                            for nb in c.bundles:
+                                if nb.identifier == bid and self.handle_of(nb) is None:
+                                    self.h[a["h"] + "+" + bh] = nb
+                return none
+            return run
+        if op == "AddBundle":
+            arg = self.h[a["arg"]]
+            ident = self.name(a["id"][0]) if a["id"] else None
+            before = list(c.bundles)
+
+            def run():
+                try:
+                    c.add_bundle(arg, ident)
+                finally:
+                    for nb in c.bundles:
+                        if self.handle_of(nb) is None and all(nb is not x for x in before):
+                            self.h[a["out"]] = nb
+                return none
+            return run
+        if op in ("Flattened", "Unified", "DocFromRecs"):
+            srcb = [(self.handle_of(b), b.identifier) for b in c.bundles]
+
+            def run():
+                if op == "Flattened":
+                    r = c.flattened()
+                elif op == "Unified":
+                    r = c.unified()
+                else:
+                    r = ProvDocument(records=c.get_records())
+                if self.handle_of(r) is None:
+                    self.h[a["out"]] = r
+                    if op == "Unified" and r.is_document():
+                        for (bh, bid) in srcb:
+                            for nb in r.bundles:
+                                if nb.identifier == bid and self.handle_of(nb) is None:
+                                    self.h[a["out"] + "+" + bh] = nb
+                return none
+            return run
+        if op == "GetRecord":
+            ident = self.name(a["id"])
+
+            def run():
+                got = c.get_record(ident)
+                recs = c.records
+                idx = []
+                for g in (got or []):
+                    idx += [i + 1 for i, r in enumerate(recs) if r is g]
+                return idx
+            return run
         if op == "AddNs":
             p, u = a["p"], uri_text(a["u"])
 
@@ -267,6 +442,7 @@ class World(object):
             res = proj_qn(None)
         st = {"op": a, "exc": exc, "res": res, "post": self.observe(),
               "parents": self.parents, "reres": self.reres()}
+        st["look"], st["typed"], st["copy"] = self.lookups()
         if pre is not None:
             st["pre"] = pre
         return st
